@@ -41,6 +41,11 @@ pub enum Noise {
 #[derive(Clone, Debug, PartialEq, Eq, Serialize, Deserialize)]
 pub enum HStep {
     Observe(usize),
+    /// the observed call with parameters that are *equal* to the recipe's but were reached
+    /// through another object history: the name built up to `split` edits, encoded once (the
+    /// parameters go through a self-signing and come back as `cert.params().clone()`), then
+    /// the remaining edits applied in place
+    ObserveTwin { obs: usize, split: usize },
     Noise(Noise),
 }
 
@@ -113,9 +118,14 @@ impl Engine for PurityHist {
         let len = if tier == Tier::Thorough { r.range(10, 40) } else { r.range(8, 24) } as usize;
         let mut history: Vec<HStep> = Vec::new();
         // each observed call at least 3 times, at seeded positions
-        for (i, _) in observed.iter().enumerate() {
+        for (i, op) in observed.iter().enumerate() {
             for _ in 0..r.range(3, 4) {
                 history.push(HStep::Observe(i));
+            }
+            if let Op::SelfSign { recipe, .. } | Op::Issue { recipe, .. } | Op::Csr { recipe, .. } = op {
+                if r.chance(2, 3) {
+                    history.push(HStep::ObserveTwin { obs: i, split: r.usize(recipe.dn.0.len() + 1) });
+                }
             }
         }
         while history.len() < len {
@@ -163,6 +173,14 @@ impl Engine for PurityHist {
             return o;
         }
         let snap = Snapshot::take(&w);
+        // pristine references: each observed call executed in a fresh process in which only its
+        // own issuer chain has been set up — no other set-up operation, no noise
+        let pristine: Vec<Option<Observed>> = if w.issuers.len() == t.setup.len() {
+            t.observed.iter().map(|op| pristine_reference(t, op)).collect()
+        } else {
+            vec![None; t.observed.len()]
+        };
+        o.count("pristine_references", pristine.iter().filter(|p| p.is_some()).count() as u64);
         // first execution of each observed call defines its reference
         let mut reference: Vec<Option<Observed>> = vec![None; t.observed.len()];
         let mut repeats = 0u64;
@@ -181,6 +199,16 @@ impl Engine for PurityHist {
                     if r.params_preserved == Some(true) {
                         o.count("params_equality_checked", 1);
                     }
+                    if let Some(Some(p)) = pristine.get(*i) {
+                        o.count("compared_with_pristine", 1);
+                        if let Err((_, d)) = p.same_as(&now) {
+                            o.violate(
+                                "c15-history-dependent",
+                                format!("step {step} observe[{i}] {}: differs from the same call in a fresh process with only its own issuer chain set up: {d}", op.kind()),
+                            );
+                            break;
+                        }
+                    }
                     match &reference[*i] {
                         None => reference[*i] = Some(now),
                         Some(first) => {
@@ -189,6 +217,33 @@ impl Engine for PurityHist {
                                 o.violate(&c, format!("step {step} observe[{i}] {}: {d}", op.kind()));
                                 break;
                             }
+                        }
+                    }
+                }
+                HStep::ObserveTwin { obs, split } => {
+                    let Some(op) = t.observed.get(*obs) else { continue };
+                    let (Op::SelfSign { recipe, .. } | Op::Issue { recipe, .. } | Op::Csr { recipe, .. }) = op else { continue };
+                    let twin = guarded(|| build_twin(&w, recipe, *split));
+                    let Ok(Some(params)) = twin else {
+                        o.count("twin_not_built", 1);
+                        continue;
+                    };
+                    let r = w.exec_with_params(op, params);
+                    let now = Observed::of(&w, op, &r);
+                    o.count("twin_observations", 1);
+                    o.ev(format!("{step} twin[{obs}] split={split} {} {}", op.kind(), now.tag()));
+                    let want = match (&reference[*obs], pristine.get(*obs)) {
+                        (Some(f), _) => Some(f.clone()),
+                        (None, Some(Some(p))) => Some(p.clone()),
+                        _ => None,
+                    };
+                    if let Some(want) = want {
+                        if let Err((_, d)) = want.same_as(&now) {
+                            o.violate(
+                                "c15-equal-params-different-output",
+                                format!("step {step} twin of observe[{obs}] {} (name edited in place after {split} edits and one encoding): {d}", op.kind()),
+                            );
+                            break;
                         }
                     }
                 }
@@ -264,6 +319,95 @@ impl Engine for PurityHist {
     }
 }
 
+fn issuer_of(op: &Op) -> Option<usize> {
+    match op {
+        Op::Issue { issuer, .. } | Op::IssueFromCsr { issuer, .. } | Op::Crl { issuer, .. } => Some(*issuer),
+        _ => None,
+    }
+}
+
+fn with_issuer(op: &Op, i: usize) -> Op {
+    let mut o = op.clone();
+    match &mut o {
+        Op::Issue { issuer, .. } | Op::IssueFromCsr { issuer, .. } | Op::Crl { issuer, .. } => *issuer = i,
+        _ => {}
+    }
+    o
+}
+
+/// The set-up operations `op` depends on (its issuer chain), re-indexed, and `op` itself.
+fn minimal_prefix(setup: &[Op], op: &Op) -> (Vec<Op>, Op) {
+    let mut needed = std::collections::BTreeSet::new();
+    let mut stack: Vec<usize> = issuer_of(op).into_iter().collect();
+    while let Some(i) = stack.pop() {
+        if i < setup.len() && needed.insert(i) {
+            if let Some(j) = issuer_of(&setup[i]) {
+                stack.push(j);
+            }
+        }
+    }
+    let order: Vec<usize> = needed.into_iter().collect();
+    let remap = |i: usize| order.iter().position(|x| *x == i).unwrap_or(0);
+    let new_setup = order
+        .iter()
+        .map(|&i| match issuer_of(&setup[i]) {
+            Some(j) => with_issuer(&setup[i], remap(j)),
+            None => setup[i].clone(),
+        })
+        .collect();
+    let new_op = match issuer_of(op) {
+        Some(j) => with_issuer(op, remap(j)),
+        None => op.clone(),
+    };
+    (new_setup, new_op)
+}
+
+fn pristine_reference(t: &PurityTrace, op: &Op) -> Option<Observed> {
+    let (setup, op) = minimal_prefix(&t.setup, op);
+    let slots = t.slots.clone();
+    let hs = t.hash_seed ^ 0x00c0_ffee;
+    simcore::engine::in_child(move || {
+        #[cfg(rcgen_verif)]
+        rcgen::verif_hooks::set_hash_seed(hs);
+        let _ = hs;
+        let mut w = World::build(&slots, BTreeMap::new(), None).ok()?;
+        for s in &setup {
+            w.exec(s);
+        }
+        if w.issuers.len() != setup.len() {
+            return None;
+        }
+        let r = w.exec_ro(&op).0;
+        Some(Observed::of(&w, &op, &r))
+    })
+    .flatten()
+}
+
+/// Parameters equal to `recipe.build()` reached through another object history.
+fn build_twin(w: &World, recipe: &crate::recipe::CertRecipe, split: usize) -> Option<rcgen::CertificateParams> {
+    let mut partial = recipe.clone();
+    let split = split.min(recipe.dn.0.len());
+    partial.dn.0.truncate(split);
+    let p = partial.build();
+    // one encoding of the partial name; the parameters come back inside the certificate
+    let mut p2 = match p.self_signed(&w.keys[0].kp) {
+        Ok(cert) => cert.params().clone(),
+        Err(_) => partial.build(),
+    };
+    for (ty, v) in &recipe.dn.0[split..] {
+        match v {
+            Some(v) => p2.distinguished_name.push(ty.build(), v.build()),
+            None => {
+                p2.distinguished_name.remove(ty.build());
+            }
+        }
+    }
+    if p2 != recipe.build() {
+        return None;
+    }
+    Some(p2)
+}
+
 pub fn shrink_op(op: &Op) -> Vec<Op> {
     match op {
         Op::SelfSign { key, recipe, store } => {
@@ -318,6 +462,7 @@ pub fn ret_tag(r: &Ret) -> String {
 fn hstep_tag(h: &HStep) -> String {
     match h {
         HStep::Observe(i) => format!("observe[{i}]"),
+        HStep::ObserveTwin { obs, split } => format!("twin[{obs}] split={split}"),
         HStep::Noise(n) => format!("noise {}", noise_kind(n)),
     }
 }
@@ -337,7 +482,7 @@ fn noise_kind(n: &Noise) -> &'static str {
 }
 
 /// What is compared between repetitions of an observed call.
-#[derive(Clone, Debug)]
+#[derive(Clone, Debug, Serialize, Deserialize)]
 pub struct Observed {
     pub class: String,
     pub tbs: Option<Vec<u8>>,
